@@ -68,6 +68,7 @@ FIXED = [
  "fixed: property=C03 ce780e7 SQUARED_DIFFERENCE whose first operand is the smaller (broadcast) one, e.g. a constant 1x1xWxC: int32 intermediates cloned from that operand were allocated too small and overlapped live tensors (findings/FX-squared-difference-broadcast-const.C03.json)",
  "fixed: property=C13 3a3b97c LOG / SQRT (int8 and int16 lookup tables) with a zero point that makes some dequantised input negative aborted with ValueError: math domain error (findings/FX-sqrt-table-domain-error.C13.json)",
  "fixed: property=C13 f041534 AssertionError Allocation exceeds staging limit (scheduler.use_fast_storage_for_feature_maps) when the tensors that cannot leave fast storage alone exceed a small --arena-cache-size, e.g. RESIZE / TRANSPOSE / CONCATENATION network on ethos-u55-64 with --arena-cache-size 12957 (findings/FX-staging-limit-assertion.C13.json)",
+ "fixed: property=C01 6aec2b8 PAD ; AVERAGE_POOL_2D with a fused RELU-family activation (explicit padding, converted to a depthwise convolution with the zero point in the bias and OFM zero point 0): the clamp was computed without the zero point, RELU cut at code 0 instead of at the zero point (findings/FX-pad-avgpool-relu-clamp.C01.json)",
 ]
 EXTRA = [
  dict(id="F07-pad-then-mean", property="C13", status="known",
